@@ -102,7 +102,7 @@ func vStoredOnceC16(e *vEnv, dec *zstd.Decoder) (*vWalkC16, error) {
 	idx := map[restic.BlobHandle][]string{}
 	if err := e.WithRepo(func(ctx context.Context, repo *repository.Repository) error {
 		key = repo.Key()
-		if err := repo.LoadIndex(ctx, nil); err != nil {
+		if err := repo.LoadIndex(ctx, restic.NoopTerminalCounterFactory); err != nil {
 			return err
 		}
 		return repo.ListBlobs(ctx, func(pb restic.PackBlob) {
@@ -305,7 +305,25 @@ func TestVerifC16StoredOnce(t *testing.T) {
 		}
 
 		// ---- tree ----
-		src := e.Scratch("src-")
+		// The snapshot also records the metadata of every ancestor directory of the source. restic creates
+		// its temporary pack files in $TMPDIR, so a source below $TMPDIR would see an ancestor's mtime change
+		// during the first backup: the source lives below the shard's run directory instead.
+		base := os.Getenv("VERIF_RUNDIR")
+		if base == "" {
+			base = e.base
+		}
+		work, err := os.MkdirTemp(base, "c16-")
+		if err != nil {
+			t.Fatal(err)
+		}
+		defer os.RemoveAll(work)
+		src := filepath.Join(work, "src")
+		copies := filepath.Join(work, "copies")
+		for _, d := range []string{src, copies} {
+			if err := os.Mkdir(d, 0o755); err != nil {
+				t.Fatal(err)
+			}
+		}
 		dirs := []string{""}
 		for i := 0; i < rapid.IntRange(0, 4).Draw(t, "ndirs"); i++ {
 			parent := dirs[rapid.IntRange(0, len(dirs)-1).Draw(t, "dparent")]
@@ -370,6 +388,7 @@ func TestVerifC16StoredOnce(t *testing.T) {
 		}
 
 		// ---- first backup ----
+		chain0 := vChainSigC16(src)
 		sum1, log1, err := vBackupJSONC16(e, src, BackupOptions{ReadConcurrency: rc()})
 		if err != nil {
 			t.Fatal(err)
@@ -421,7 +440,7 @@ func TestVerifC16StoredOnce(t *testing.T) {
 				wantTree0 = false
 			case "copy":
 				// byte-identical copy at another path (new inodes, new names of the parents)
-				target = filepath.Join(e.base, fmt.Sprintf("copy-%d", i))
+				target = filepath.Join(copies, fmt.Sprintf("copy-%d", i))
 				if err := vCopyTreeC16(src, target); err != nil {
 					t.Fatal(err)
 				}
@@ -433,7 +452,13 @@ func TestVerifC16StoredOnce(t *testing.T) {
 				t.Fatal(err)
 			}
 			st.Evals(1)
-			if sum.DataBlobs != 0 || sum.DataAdded != 0 && wantTree0 {
+			if wantTree0 && vChainSigC16(src) != chain0 {
+				// somebody else (another check running on this machine) changed a directory above the source
+				// between the backups: its tree blob legitimately differs
+				wantTree0 = false
+				st.Class("ancestor-dir-changed-by-others")
+			}
+			if sum.DataBlobs != 0 || (wantTree0 && sum.DataAdded != 0) {
 				t.Fatalf("backup %d (%s) of unchanged content reports data_blobs=%d tree_blobs=%d data_added=%d\ncase %s", i+2, step, sum.DataBlobs, sum.TreeBlobs, sum.DataAdded, vJSON(c))
 			}
 			if wantTree0 && sum.TreeBlobs != 0 {
@@ -497,6 +522,23 @@ func TestVerifC16StoredOnce(t *testing.T) {
 	})
 }
 
+// vChainSigC16 describes the metadata of path and of all its ancestors (what the snapshot records for them).
+func vChainSigC16(path string) string {
+	var sb strings.Builder
+	for p := path; ; p = filepath.Dir(p) {
+		var st syscall.Stat_t
+		if err := syscall.Lstat(p, &st); err != nil {
+			fmt.Fprintf(&sb, "%s:%v;", p, err)
+		} else {
+			fmt.Fprintf(&sb, "%s:%d.%d:%d.%d:%o:%d:%d:%d;", p, st.Mtim.Sec, st.Mtim.Nsec, st.Ctim.Sec, st.Ctim.Nsec, st.Mode, st.Uid, st.Gid, st.Ino)
+		}
+		if p == "/" || p == "." {
+			break
+		}
+	}
+	return sb.String()
+}
+
 func vBucketC16cli(n int) string {
 	switch {
 	case n < 1:
@@ -510,4 +552,3 @@ func vBucketC16cli(n int) string {
 	}
 }
 
-var _ = syscall.Link
